@@ -1188,3 +1188,655 @@ Section DfsSpec.
       rewrite <- M1, <- Hy. apply Hrule; [assumption|]. unfold is_rule. now rewrite Hty.
   Qed.
 End DfsSpec.
+
+(** * From the loaded list back to the registered graph *)
+Section Bridge.
+  Variable ns : list node.
+  Variable kind : name -> skind.
+  Hypothesis ns_nonsrc : forall n, In n ns -> ntype n <> TSrc.
+
+  Variable L : list node.
+  Hypothesis Ht : topo ns kind L.
+
+  Lemma topo_In m : In m L -> lnode_ok ns kind m.
+  Proof.
+    revert Ht. induction L as [|n r IH]; simpl; [tauto|].
+    intros (Hok & _ & _ & Hr) [<-|Hin]; auto.
+  Qed.
+
+  Lemma topo_find a m : find_node a L = Some m -> lnode_ok ns kind m /\ nname m = a.
+  Proof. intros H. apply find_node_Some in H. destruct H. split; [now apply topo_In|assumption]. Qed.
+
+  Lemma edgeL_edge a b : edgeL L a b -> edge ns a b.
+  Proof.
+    intros [m [Hm Hb]]. destruct (topo_find _ _ Hm) as [[Hf|(_ & _ & _ & Hs)] Hnm].
+    - exists m. rewrite Hnm in Hf. auto.
+    - rewrite Hs in Hb. destruct Hb.
+  Qed.
+
+  Lemma edge_edgeL a b : has_node a L = true -> edge ns a b -> edgeL L a b.
+  Proof.
+    intros Ha [n [Hn Hb]]. destruct (has_node_find _ _ Ha) as [m Hm].
+    destruct (topo_find _ _ Hm) as [[Hf|(Hf & _)] Hnm]; rewrite Hnm in Hf; [|congruence].
+    assert (m = n) by congruence. subst m. exists n. auto.
+  Qed.
+
+  Lemma rtL_rt a b : clos_refl_trans name (edgeL L) a b -> clos_refl_trans name (edge ns) a b.
+  Proof.
+    induction 1; [apply rt_step; now apply edgeL_edge|apply rt_refl|eapply rt_trans; eauto].
+  Qed.
+
+  Lemma tL_t a b : clos_trans name (edgeL L) a b -> clos_trans name (edge ns) a b.
+  Proof.
+    induction 1; [apply t_step; now apply edgeL_edge|eapply t_trans; eauto].
+  Qed.
+
+  Lemma rt_rtL a b :
+    has_node a L = true -> clos_refl_trans name (edge ns) a b -> clos_refl_trans name (edgeL L) a b.
+  Proof.
+    intros Ha Hab. apply clos_rt_rt1n in Hab.
+    induction Hab as [x|x y z Hxy Hyz IH]; [apply rt_refl|].
+    apply rt_trans with y; [apply rt_step; apply edge_edgeL; assumption|].
+    apply IH. eapply topo_edge; eauto.
+  Qed.
+
+  Lemma t_tL a b :
+    has_node a L = true -> clos_trans name (edge ns) a b -> clos_trans name (edgeL L) a b.
+  Proof.
+    intros Ha Hab. apply clos_trans_t1n in Hab.
+    induction Hab as [x y Hxy|x y z Hxy Hyz IH]; [apply t_step; apply edge_edgeL; assumption|].
+    apply t_trans with y; [apply t_step; apply edge_edgeL; assumption|].
+    apply IH. eapply topo_edge; eauto.
+  Qed.
+
+  Lemma loaded_src_nodeps n : In n L -> ntype n = TSrc -> ndeps n = [].
+  Proof.
+    intros Hin Hty. destruct (topo_In _ Hin) as [Hf|(_ & _ & _ & ->)]; [|reflexivity].
+    apply find_node_Some in Hf. destruct Hf as [Hns _]. exfalso. now apply (ns_nonsrc n).
+  Qed.
+
+  Lemma rule_L_ns r n :
+    has_node r L = true ->
+    (find_node r L = Some n /\ ntype n = TRule <-> find_node r ns = Some n /\ ntype n = TRule).
+  Proof.
+    intros Hr. destruct (has_node_find _ _ Hr) as [m Hm].
+    destruct (topo_find _ _ Hm) as [[Hf|(Hf & _ & _ & Hs)] Hnm]; rewrite Hnm in Hf.
+    - split; intros [H1 H2]; split; auto; congruence.
+    - split; intros [H1 H2]; [|congruence].
+      assert (m = n) by congruence. subst m. rewrite Hs in H2. simpl in H2. discriminate.
+  Qed.
+End Bridge.
+
+(** Invariants of the registered node list through reading. *)
+Lemma register_nodes_inv (P : list node -> Prop) n st :
+  (forall l, P l -> P (l ++ [n])%list) -> P (r_nodes st) -> P (r_nodes (register n st)).
+Proof.
+  intros Hadd H. unfold register, r_err.
+  destruct (String.eqb (nname n) ""); [assumption|].
+  destruct (has_node (nname n) (r_nodes st)); simpl; auto.
+Qed.
+
+Lemma register_decl_nonsrc st d :
+  (forall n, In n (r_nodes st) -> ntype n <> TSrc) ->
+  (forall n, In n (r_nodes (register_decl st d)) -> ntype n <> TSrc).
+Proof.
+  destruct d as [nm deps outs| |]; simpl; auto.
+  intros H.
+  assert (H0 : forall n, In n (r_nodes (register (mkNode nm TRule deps) st)) -> ntype n <> TSrc).
+  { apply register_nodes_inv with (P := fun l => forall n, In n l -> ntype n <> TSrc); [|assumption].
+    intros l Hl n Hn. apply in_app_iff in Hn. destruct Hn as [Hn|[<-|[]]]; [auto|discriminate]. }
+  revert H0. generalize (register (mkNode nm TRule deps) st).
+  induction outs as [|o outs IH]; simpl; intros r Hr; [assumption|].
+  apply IH.
+  apply register_nodes_inv with (P := fun l => forall n, In n l -> ntype n <> TSrc); [|assumption].
+  intros l Hl n Hn. apply in_app_iff in Hn. destruct Hn as [Hn|[<-|[]]]; [auto|discriminate].
+Qed.
+
+Lemma read_dir_nonsrc fs : forall f p st st',
+  (forall n, In n (r_nodes st) -> ntype n <> TSrc) ->
+  read_dir f fs p st = Some st' ->
+  (forall n, In n (r_nodes st') -> ntype n <> TSrc).
+Proof.
+  induction f as [|f IH]; intros p st st' H E; [discriminate|].
+  simpl in E. destruct (mem p (r_seen st)); [now injection E as <-|].
+  destruct (lookup p fs) as [ds|]; [|injection E as <-; exact H].
+  destruct (file_errs ds); [|injection E as <-; exact H].
+  assert (H1 : forall n, In n (r_nodes (fold_left register_decl ds
+               (mkR (r_nodes st) (r_errs st) (p :: r_seen st)))) -> ntype n <> TSrc).
+  { assert (Hg : forall ds s, (forall n, In n (r_nodes s) -> ntype n <> TSrc) ->
+                forall n, In n (r_nodes (fold_left register_decl ds s)) -> ntype n <> TSrc).
+    { clear. induction ds as [|d ds IHd]; simpl; intros s Hs; [assumption|].
+      apply IHd. now apply register_decl_nonsrc. }
+    apply Hg. simpl. exact H. }
+  revert E H1. generalize (fold_left register_decl ds (mkR (r_nodes st) (r_errs st) (p :: r_seen st))).
+  generalize (sort_dedup (sub_dirs ds)).
+  induction l as [|d l IHl]; intros s E Hs.
+  - now injection E as <-.
+  - rewrite ofold_cons in E. destruct (read_dir f fs d s) as [s1|] eqn:E1;
+      [|now rewrite ofold_none in E].
+    eapply IHl; [exact E|]. eapply IH; eauto.
+Qed.
+
+Lemma read_roots_nonsrc fs roots st :
+  read_roots fs roots = Some st -> forall n, In n (r_nodes st) -> ntype n <> TSrc.
+Proof.
+  unfold read_roots.
+  assert (H : forall l s, (forall n, In n (r_nodes s) -> ntype n <> TSrc) ->
+            ofold (read_dir (read_fuel fs) fs) l (Some s) = Some st ->
+            forall n, In n (r_nodes st) -> ntype n <> TSrc).
+  { induction l as [|d l IHl]; intros s Hs E.
+    - now injection E as <-.
+    - rewrite ofold_cons in E. destruct (read_dir (read_fuel fs) fs d s) as [s1|] eqn:E1;
+        [|now rewrite ofold_none in E].
+      eapply IHl; [|exact E]. eapply read_dir_nonsrc; eauto. }
+  apply H. simpl. intros n [].
+Qed.
+
+(** * The whole run, after the build files were read without error *)
+Theorem c11_after_read fs roots kind ts st :
+  read_roots fs roots = Some st -> r_errs st = [] ->
+  match c11_run fs roots kind ts with
+  | CErr es => es <> [] /\ bad_reachable (r_nodes st) kind ts
+  | CExec ex =>
+      ~ bad_reachable (r_nodes st) kind ts /\ NoDup ex /\
+      (forall r, In r ex <->
+         exists t n, In t ts /\ clos_refl_trans name (edge (r_nodes st)) t r /\
+                     find_node r (r_nodes st) = Some n /\ ntype n = TRule) /\
+      (forall e1 a e2, ex = (e1 ++ a :: e2)%list ->
+         forall b n, clos_trans name (edge (r_nodes st)) a b ->
+                     find_node b (r_nodes st) = Some n -> ntype n = TRule -> In b e1)
+  | _ => False
+  end.
+Proof.
+  intros Hr He. unfold c11_run, load_nodes. rewrite Hr, He.
+  pose proof (read_roots_nonsrc _ _ _ Hr) as Hns.
+  destruct (load_all_spec (r_nodes st) kind ts) as [s' [El [Hbad Hok]]]. rewrite El.
+  destruct (l_errs s') as [|e es] eqn:Hes.
+  - destruct (Hok eq_refl) as [Htopo Hts].
+    pose proof (topo_wf _ _ _ Htopo) as Hwf.
+    destruct (exec_sound _ Hwf ts Hts (loaded_src_nodeps _ kind Hns _ Htopo))
+      as [ex (Hex & Hnd & Hiff & Hord)].
+    rewrite Hex. split; [|split; [assumption|split]].
+    + intros Hb. apply Hbad in Hb. congruence.
+    + intros r. rewrite Hiff. split.
+      * intros (t & n & Ht & Htr & Hn & Hty). exists t, n.
+        assert (Hrl : has_node r (l_loaded s') = true).
+        { unfold has_node. now rewrite Hn. }
+        split; [assumption|]. split; [eapply rtL_rt; eauto|].
+        now apply (rule_L_ns _ kind _ Htopo r n Hrl).
+      * intros (t & n & Ht & Htr & Hn & Hty). exists t, n.
+        assert (Hrl : has_node r (l_loaded s') = true).
+        { eapply topo_closed; eauto. }
+        split; [assumption|]. split; [eapply rt_rtL; eauto|].
+        now apply (rule_L_ns _ kind _ Htopo r n Hrl).
+    + intros e1 a e2 E b n Hab Hb Hty.
+      assert (Hal : has_node a (l_loaded s') = true).
+      { assert (Hin : In a ex) by (rewrite E; apply in_app_iff; right; now left).
+        apply Hiff in Hin. destruct Hin as (t & m & _ & _ & Hm & _).
+        unfold has_node. now rewrite Hm. }
+      assert (Hbl : has_node b (l_loaded s') = true).
+      { eapply topo_closed; eauto. now apply t_rt. }
+      apply (Hord e1 a e2 E b n).
+      * eapply t_tL; eauto.
+      * now apply (rule_L_ns _ kind _ Htopo b n Hbl).
+      * assumption.
+  - split; [discriminate|]. apply Hbad. discriminate.
+Qed.
+
+(** * Reading: which directories are read, what is registered, when it fails *)
+
+Lemma insert_sorted_In x y l : In y (insert_sorted x l) <-> y = x \/ In y l.
+Proof.
+  induction l as [|z l IH]; simpl; [intuition|].
+  destruct (String.eqb_spec x z) as [->|Hne]; simpl; [intuition|].
+  destruct (String.leb x z); simpl; [intuition|]. rewrite IH. intuition.
+Qed.
+
+Lemma sort_dedup_In x l : In x (sort_dedup l) <-> In x l.
+Proof.
+  unfold sort_dedup. induction l as [|y l IH]; simpl; [tauto|].
+  rewrite insert_sorted_In, IH. intuition.
+Qed.
+
+Definition file_nodes (ds : list decl) : list node :=
+  flat_map (fun d => match d with
+                     | DRule nm deps outs =>
+                         mkNode nm TRule deps :: map (fun o => mkNode o TOut [nm]) outs
+                     | _ => []
+                     end) ds.
+
+Definition reg_all (l : list node) (st : rstate) : rstate :=
+  fold_left (fun st n => register n st) l st.
+
+Lemma reg_all_app a b st : reg_all (a ++ b) st = reg_all b (reg_all a st).
+Proof. apply fold_left_app. Qed.
+
+Lemma register_decls_reg_all ds st :
+  fold_left register_decl ds st = reg_all (file_nodes ds) st.
+Proof.
+  revert st. induction ds as [|d ds IH]; intros st; simpl; [reflexivity|].
+  rewrite IH. destruct d as [nm deps outs| |]; simpl; try reflexivity.
+  unfold file_nodes at 2. simpl. fold (file_nodes ds). rewrite reg_all_app. f_equal.
+  simpl. generalize (register (mkNode nm TRule deps) st).
+  induction outs as [|o outs IHo]; intros r; simpl; [reflexivity|]. apply IHo.
+Qed.
+
+(** [l] can be registered on top of [ns] without complaint. *)
+Definition clean (ns l : list node) : Prop :=
+  (forall n, In n l -> nname n <> "") /\
+  NoDup (map nname l) /\
+  (forall x, In x (map nname l) -> In x (map nname ns) -> False).
+
+Lemma clean_nil ns : clean ns [].
+Proof. repeat split; simpl; [intros n []|constructor|intros x []]. Qed.
+
+Lemma clean_cons ns n l :
+  clean ns (n :: l) <->
+  nname n <> "" /\ ~ In (nname n) (map nname ns) /\ clean (ns ++ [n]) l.
+Proof.
+  unfold clean. simpl. rewrite map_app. simpl. split.
+  - intros (H1 & H2 & H3). inversion H2 as [|? ? Hn Hl]; subst.
+    repeat split; auto.
+    + intros Hin. eapply H3; eauto.
+    + intros x Hx Hin. apply in_app_iff in Hin. destruct Hin as [Hin|[<-|[]]]; [eapply H3; eauto|auto].
+  - intros (H1 & H2 & H3 & H4 & H5). repeat split.
+    + intros m [<-|Hm]; auto.
+    + constructor; [|assumption]. intros Hin. apply (H5 _ Hin). apply in_app_iff. right. now left.
+    + intros x [<-|Hx] Hin; [auto|]. apply (H5 _ Hx). apply in_app_iff. now left.
+Qed.
+
+Lemma clean_app ns a b : clean ns (a ++ b) <-> clean ns a /\ clean (ns ++ a) b.
+Proof.
+  revert ns. induction a as [|n a IH]; intros ns; simpl.
+  - rewrite app_nil_r. split; [intros H; split; [apply clean_nil|assumption]|tauto].
+  - rewrite !clean_cons, IH. rewrite <- app_assoc. simpl. tauto.
+Qed.
+
+Lemma register_errs_keep n st : r_errs st <> [] -> r_errs (register n st) <> [].
+Proof.
+  intros H. unfold register, r_err.
+  destruct (String.eqb (nname n) ""); simpl; [apply add_err_nonnil|].
+  destruct (has_node (nname n) (r_nodes st)); simpl; [apply add_err_nonnil|assumption].
+Qed.
+
+Lemma reg_all_errs_keep l st : r_errs st <> [] -> r_errs (reg_all l st) <> [].
+Proof.
+  revert st. induction l as [|n l IH]; intros st H; simpl; [assumption|].
+  apply IH. now apply register_errs_keep.
+Qed.
+
+Lemma reg_all_seen l st : r_seen (reg_all l st) = r_seen st.
+Proof.
+  revert st. induction l as [|n l IH]; intros st; simpl; [reflexivity|].
+  now rewrite IH, register_seen.
+Qed.
+
+Lemma register_cases n st :
+  (nname n <> "" /\ ~ In (nname n) (map nname (r_nodes st)) /\
+   register n st = mkR (r_nodes st ++ [n])%list (r_errs st) (r_seen st)) \/
+  ((nname n = "" \/ In (nname n) (map nname (r_nodes st))) /\ r_errs (register n st) <> []).
+Proof.
+  unfold register, r_err. destruct (String.eqb_spec (nname n) "") as [E|E].
+  - right. split; [now left|]. simpl. apply add_err_nonnil.
+  - destruct (has_node (nname n) (r_nodes st)) eqn:Hh.
+    + right. split; [right; now apply has_node_In|]. simpl. apply add_err_nonnil.
+    + left. apply has_node_false in Hh. auto.
+Qed.
+
+Lemma reg_all_spec l : forall st,
+  (r_errs (reg_all l st) = [] <-> r_errs st = [] /\ clean (r_nodes st) l) /\
+  (r_errs (reg_all l st) = [] -> r_nodes (reg_all l st) = (r_nodes st ++ l)%list).
+Proof.
+  induction l as [|n l IH]; intros st; simpl.
+  - split; [|intros _; now rewrite app_nil_r].
+    split; [intros H; split; [assumption|apply clean_nil]|tauto].
+  - rewrite clean_cons.
+    destruct (register_cases n st) as [(H1 & H2 & ->)|(H1 & H2)].
+    + destruct (IH (mkR (r_nodes st ++ [n])%list (r_errs st) (r_seen st))) as [I1 I2]. simpl in *.
+      split; [rewrite I1; tauto|].
+      intros H. rewrite (I2 H). now rewrite <- app_assoc.
+    + pose proof (reg_all_errs_keep l _ H2) as Hk. split; [|intros H; contradiction].
+      split; [intros H; contradiction|]. intros (_ & Hn & Hi & _). destruct H1; contradiction.
+Qed.
+
+Section ReadSpec.
+  Variable fs : bfiles.
+
+  Definition fnodes (q : name) : list node :=
+    match lookup q fs with Some ds => file_nodes ds | None => [] end.
+
+  Definition good_file (q : name) : Prop :=
+    match lookup q fs with Some ds => file_errs ds = [] | None => True end.
+
+  (** [b] is a sub-build directory of the (error-free) build file of [a]. *)
+  Definition sub (a b : name) : Prop :=
+    exists ds, lookup a fs = Some ds /\ file_errs ds = [] /\ In b (sub_dirs ds).
+
+  Definition rpost (starts : list name) (st st' : rstate) : Prop :=
+    (forall s, In s starts -> In s (r_seen st')) /\
+    exists new,
+      r_seen st' = (new ++ r_seen st)%list /\
+      NoDup new /\
+      (forall q, In q new -> ~ In q (r_seen st)) /\
+      (forall q, In q new -> exists s, In s starts /\ clos_refl_trans name sub s q) /\
+      (forall q b, In q new -> sub q b -> In b (r_seen st')) /\
+      (r_errs st' = [] <->
+         r_errs st = [] /\ (forall q, In q new -> good_file q) /\
+         clean (r_nodes st) (flat_map fnodes (rev new))) /\
+      (r_errs st' = [] -> r_nodes st' = (r_nodes st ++ flat_map fnodes (rev new))%list).
+
+  Lemma rpost_intro starts st st' new :
+    (forall s, In s starts -> In s (r_seen st')) ->
+    r_seen st' = (new ++ r_seen st)%list ->
+    NoDup new ->
+    (forall q, In q new -> ~ In q (r_seen st)) ->
+    (forall q, In q new -> exists s, In s starts /\ clos_refl_trans name sub s q) ->
+    (forall q b, In q new -> sub q b -> In b (r_seen st')) ->
+    (r_errs st' = [] <->
+       r_errs st = [] /\ (forall q, In q new -> good_file q) /\
+       clean (r_nodes st) (flat_map fnodes (rev new))) ->
+    (r_errs st' = [] -> r_nodes st' = (r_nodes st ++ flat_map fnodes (rev new))%list) ->
+    rpost starts st st'.
+  Proof. intros. split; [assumption|]. exists new. tauto. Qed.
+
+  Lemma rpost_refl st : rpost [] st st.
+  Proof.
+    apply (rpost_intro _ _ _ []); simpl.
+    - intros s [].
+    - reflexivity.
+    - constructor.
+    - intros q [].
+    - intros q [].
+    - intros q b [].
+    - split; [intros H; split; [assumption|split; [intros q []|apply clean_nil]]|tauto].
+    - intros _. now rewrite app_nil_r.
+  Qed.
+
+  Lemma rpost_trans p1 p2 st sa s1 :
+    rpost p1 st sa -> rpost p2 sa s1 -> rpost (p1 ++ p2) st s1.
+  Proof.
+    intros [A0 [n1 (A1 & A2 & A3 & A4 & A5 & A6 & A7)]] [B0 [n2 (B1 & B2 & B3 & B4 & B5 & B6 & B7)]].
+    assert (Hsub : forall x, In x (r_seen sa) -> In x (r_seen s1)).
+    { intros x Hx. rewrite B1. apply in_app_iff. now right. }
+    apply (rpost_intro _ _ _ (n2 ++ n1)%list).
+    - intros s Hs. apply in_app_iff in Hs. destruct Hs; auto.
+    - rewrite B1, A1. now rewrite app_assoc.
+    - apply NoDup_app_intro; auto. intros x H2 H1. apply (B3 x H2). rewrite A1.
+      apply in_app_iff. now left.
+    - intros q Hq Hin. apply in_app_iff in Hq. destruct Hq as [Hq|Hq].
+      + apply (B3 q Hq). rewrite A1. apply in_app_iff. now right.
+      + exact (A3 q Hq Hin).
+    - intros q Hq. apply in_app_iff in Hq. destruct Hq as [Hq|Hq].
+      + destruct (B4 q Hq) as [s [Hs Hr]]. exists s. split; [apply in_app_iff; now right|assumption].
+      + destruct (A4 q Hq) as [s [Hs Hr]]. exists s. split; [apply in_app_iff; now left|assumption].
+    - intros q b Hq Hqb. apply in_app_iff in Hq. destruct Hq as [Hq|Hq]; [eauto|].
+      apply Hsub. eauto.
+    - rewrite rev_app_distr, flat_map_app, clean_app. rewrite B6. split.
+      + intros (Ha & Hg2 & Hc2). pose proof (proj1 A6 Ha) as (Hs & Hg1 & Hc1).
+        rewrite (A7 Ha) in Hc2. split; [exact Hs|]. split; [|split; [exact Hc1|exact Hc2]].
+        intros q Hq. apply in_app_iff in Hq. destruct Hq; auto.
+      + intros (Hs & Hg & Hc1 & Hc2).
+        assert (Ha : r_errs sa = []).
+        { apply A6. split; [exact Hs|]. split; [|exact Hc1].
+          intros q Hq. apply Hg. apply in_app_iff. now right. }
+        rewrite (A7 Ha). split; [exact Ha|]. split; [|exact Hc2].
+        intros q Hq. apply Hg. apply in_app_iff. now left.
+    - intros H. pose proof (proj1 B6 H) as (Ha & _ & _).
+      rewrite (B7 H), (A7 Ha), rev_app_distr, flat_map_app. now rewrite app_assoc.
+  Qed.
+
+  Lemma rpost_starts p p' st st' :
+    (forall s, In s p' -> In s (r_seen st')) ->
+    (forall s, In s p -> exists s', In s' p' /\ clos_refl_trans name sub s' s) ->
+    rpost p st st' -> rpost p' st st'.
+  Proof.
+    intros H0 Hs [A0 [n (A1 & A2 & A3 & A4 & A5 & A6 & A7)]].
+    apply (rpost_intro _ _ _ n); auto.
+    intros q Hq. destruct (A4 q Hq) as [s [Hin Hr]]. destruct (Hs s Hin) as [s' [Hin' Hr']].
+    exists s'. split; [assumption|]. eapply rt_trans; eauto.
+  Qed.
+
+  (** Marking [p] as read, registering [l] (the nodes of its build file, or
+      nothing), adding the file's own errors [es]. *)
+  Lemma rpost_leaf p st es :
+    ~ In p (r_seen st) ->
+    (es = [] <-> good_file p) ->
+    (forall b, ~ sub p b) ->
+    (es = [] -> fnodes p = []) ->
+    rpost [p] st (mkR (r_nodes st) (add_errs es (r_errs st)) (p :: r_seen st)).
+  Proof.
+    intros Hm Hes Hnosub Hfn. apply (rpost_intro _ _ _ [p]); simpl.
+    - intros s [<-|[]]. now left.
+    - reflexivity.
+    - constructor; [intros []|constructor].
+    - intros q [<-|[]]. assumption.
+    - intros q [<-|[]]. exists p. split; [now left|apply rt_refl].
+    - intros q b [<-|[]] Hs. exfalso. eapply Hnosub; eauto.
+    - rewrite app_nil_r. destruct es as [|e es].
+      + simpl. rewrite (Hfn eq_refl). split.
+        * intros H. split; [assumption|]. split; [|apply clean_nil].
+          intros q [<-|[]]. now apply Hes.
+        * tauto.
+      + split.
+        * intros H. exfalso. revert H. now apply add_errs_nonnil.
+        * intros (_ & Hg & _). exfalso. assert (e :: es = []) by (apply Hes; apply Hg; now left).
+          discriminate.
+    - rewrite app_nil_r. destruct es as [|e es].
+      + intros _. rewrite (Hfn eq_refl). now rewrite app_nil_r.
+      + intros H. exfalso. revert H. now apply add_errs_nonnil.
+  Qed.
+
+  Lemma read_dir_spec : forall f p st st',
+    read_dir f fs p st = Some st' -> rpost [p] st st'.
+  Proof.
+    induction f as [|f IH]; intros p st st' E; [discriminate|].
+    simpl in E. destruct (mem p (r_seen st)) eqn:Hm.
+    { injection E as <-. apply mem_In in Hm.
+      eapply rpost_starts; [| |apply rpost_refl]; [intros s [<-|[]]; assumption|intros s []]. }
+    apply mem_false in Hm.
+    destruct (lookup p fs) as [ds|] eqn:Hl.
+    2:{ injection E as <-.
+        apply (rpost_leaf p st []); auto.
+        - unfold good_file. rewrite Hl. tauto.
+        - intros b [ds [Hds _]]. congruence.
+        - intros _. unfold fnodes. now rewrite Hl. }
+    destruct (file_errs ds) as [|e es] eqn:He.
+    2:{ injection E as <-.
+        apply (rpost_leaf p st (e :: es)); auto.
+        - unfold good_file. rewrite Hl, He. tauto.
+        - intros b [ds' [Hds [He' _]]]. congruence.
+        - discriminate. }
+    (* an error-free build file: register its nodes, then its sub-builds *)
+    rewrite register_decls_reg_all in E.
+    set (st0 := mkR (r_nodes st) (r_errs st) (p :: r_seen st)) in *.
+    set (st1 := reg_all (file_nodes ds) st0) in *.
+    assert (Hfold : forall l s s', ofold (read_dir f fs) l (Some s) = Some s' -> rpost l s s').
+    { induction l as [|d l IHl]; intros s s' El.
+      - injection El as <-. apply rpost_refl.
+      - rewrite ofold_cons in El. destruct (read_dir f fs d s) as [sa|] eqn:Ea;
+          [|now rewrite ofold_none in El].
+        change (d :: l) with ([d] ++ l)%list. eapply rpost_trans; eauto. }
+    destruct (Hfold _ _ _ E) as [A0 [newc (A1 & A2 & A3 & A4 & A5 & A6 & A7)]].
+    destruct (reg_all_spec (file_nodes ds) st0) as [R1 R2]. fold st1 in R1, R2.
+    assert (Hs1 : r_seen st1 = p :: r_seen st) by (unfold st1; now rewrite reg_all_seen).
+    assert (Hfn : fnodes p = file_nodes ds) by (unfold fnodes; now rewrite Hl).
+    assert (Hsubp : forall b, sub p b <-> In b (sort_dedup (sub_dirs ds))).
+    { intros b. rewrite sort_dedup_In. split.
+      - intros [ds' (Hds & _ & Hb)]. congruence.
+      - intros Hb. exists ds. auto. }
+    apply (rpost_intro _ _ _ (newc ++ [p])%list).
+    - intros s [<-|[]]. rewrite A1, Hs1. apply in_app_iff. right. now left.
+    - rewrite A1, Hs1. now rewrite <- app_assoc.
+    - apply NoDup_app_intro; [assumption|constructor; [intros []|constructor]|].
+      intros x Hx [E0|[]]. subst x. apply (A3 p Hx). rewrite Hs1. now left.
+    - intros q Hq Hin. apply in_app_iff in Hq. destruct Hq as [Hq|[<-|[]]]; [|auto].
+      apply (A3 q Hq). rewrite Hs1. now right.
+    - intros q Hq. apply in_app_iff in Hq. destruct Hq as [Hq|[<-|[]]].
+      + destruct (A4 q Hq) as [s [Hs Hr]]. exists p. split; [now left|].
+        eapply rt_trans; [apply rt_step; apply Hsubp; exact Hs|exact Hr].
+      + exists p. split; [now left|apply rt_refl].
+    - intros q b Hq Hqb. apply in_app_iff in Hq. destruct Hq as [Hq|[<-|[]]]; [eauto|].
+      apply A0. now apply Hsubp.
+    - rewrite rev_app_distr. simpl. rewrite Hfn, clean_app. rewrite A6, R1. simpl. split.
+      + intros ((Hs & Hc0) & Hg & Hc). rewrite (R2 (proj2 R1 (conj Hs Hc0))) in Hc. simpl in Hc.
+        split; [exact Hs|]. split; [|split; [exact Hc0|exact Hc]].
+        intros q Hq. apply in_app_iff in Hq. destruct Hq as [Hq|[<-|[]]]; [auto|].
+        unfold good_file. now rewrite Hl.
+      + intros (Hs & Hg & Hc0 & Hc).
+        rewrite (R2 (proj2 R1 (conj Hs Hc0))). simpl.
+        split; [split; [exact Hs|exact Hc0]|]. split; [|exact Hc].
+        intros q Hq. apply Hg. apply in_app_iff. now left.
+    - intros H. pose proof (proj1 A6 H) as (H1 & _ & _).
+      rewrite (A7 H), (R2 H1), rev_app_distr. simpl. rewrite Hfn. now rewrite <- app_assoc.
+  Qed.
+
+  Lemma read_dirs_spec f : forall l s s',
+    ofold (read_dir f fs) l (Some s) = Some s' -> rpost l s s'.
+  Proof.
+    induction l as [|d l IHl]; intros s s' El.
+    - injection El as <-. apply rpost_refl.
+    - rewrite ofold_cons in El. destruct (read_dir f fs d s) as [sa|] eqn:Ea;
+        [|now rewrite ofold_none in El].
+      change (d :: l) with ([d] ++ l)%list. eapply rpost_trans; eauto using read_dir_spec.
+  Qed.
+
+  (** ** Order-free statement of what reading reports *)
+  Variable roots : list name.
+
+  Definition reached (q : name) : Prop :=
+    exists s, In s roots /\ clos_refl_trans name sub s q.
+
+  Definition fnames (q : name) : list name := map nname (fnodes q).
+
+  Definition read_problem : Prop :=
+    (exists q, reached q /\ ~ good_file q) \/
+    (exists q, reached q /\ In "" (fnames q)) \/
+    (exists q, reached q /\ ~ NoDup (fnames q)) \/
+    (exists q1 q2 x, q1 <> q2 /\ reached q1 /\ reached q2 /\ In x (fnames q1) /\ In x (fnames q2)).
+
+  Lemma good_file_dec q : good_file q \/ ~ good_file q.
+  Proof.
+    unfold good_file. destruct (lookup q fs) as [ds|]; [|now left].
+    destruct (file_errs ds); [now left|right; discriminate].
+  Qed.
+
+  Lemma good_file_sumbool q : {good_file q} + {~ good_file q}.
+  Proof.
+    unfold good_file. destruct (lookup q fs) as [ds|]; [|left; exact I].
+    destruct (file_errs ds); [left; reflexivity|right; discriminate].
+  Qed.
+
+  Lemma map_flat_map {A B C} (g : B -> C) (f : A -> list B) l :
+    map g (flat_map f l) = flat_map (fun x => map g (f x)) l.
+  Proof. induction l as [|x l IH]; simpl; [reflexivity|]. now rewrite map_app, IH. Qed.
+
+  Lemma flat_map_nodup_inv (f : name -> list name) l :
+    NoDup (flat_map f l) ->
+    (forall q, In q l -> NoDup (f q)) /\
+    (NoDup l -> forall q1 q2 x, In q1 l -> In q2 l -> q1 <> q2 -> In x (f q1) -> In x (f q2) -> False).
+  Proof.
+    induction l as [|q l IH]; simpl; intros H.
+    - split; [intros q []|intros _ q1 q2 x []].
+    - apply NoDup_app_inv in H. destruct H as (Ha & Hb & Hd). destruct (IH Hb) as [I1 I2].
+      split.
+      + intros q' [<-|Hq']; auto.
+      + intros Hnd q1 q2 x H1 H2 Hne Hx1 Hx2. inversion Hnd as [|? ? Hq Hl]; subst.
+        destruct H1 as [<-|H1], H2 as [<-|H2].
+        * congruence.
+        * apply (Hd x Hx1). apply in_flat_map. eauto.
+        * apply (Hd x Hx2). apply in_flat_map. eauto.
+        * eapply I2; eauto.
+  Qed.
+
+  Lemma in_dec_ex (a b : list name) :
+    (exists x, In x a /\ In x b) \/ (forall x, In x a -> In x b -> False).
+  Proof.
+    induction a as [|y a IH]; [right; intros x []|].
+    destruct (in_dec string_dec y b) as [Hy|Hy].
+    - left. exists y. split; [now left|assumption].
+    - destruct IH as [[x [H1 H2]]|IH]; [left; exists x; split; [now right|assumption]|].
+      right. intros x [<-|Hx]; [exact Hy|now apply IH].
+  Qed.
+
+  Lemma flat_map_dup (f : name -> list name) l :
+    NoDup l -> ~ NoDup (flat_map f l) ->
+    (exists q, In q l /\ ~ NoDup (f q)) \/
+    (exists q1 q2 x, q1 <> q2 /\ In q1 l /\ In q2 l /\ In x (f q1) /\ In x (f q2)).
+  Proof.
+    induction l as [|q l IH]; simpl; intros Hnd H.
+    - exfalso. apply H. constructor.
+    - inversion Hnd as [|? ? Hq Hl]; subst.
+      destruct (ListDec.NoDup_dec string_dec (f q)) as [Ha|Ha]; [|left; exists q; auto].
+      destruct (ListDec.NoDup_dec string_dec (flat_map f l)) as [Hb|Hb].
+      + destruct (in_dec_ex (f q) (flat_map f l)) as [[x [H1 H2]]|Hd].
+        * right. apply in_flat_map in H2. destruct H2 as [q2 [Hq2 Hx2]].
+          exists q, q2, x. repeat split; auto. intros ->. contradiction.
+        * exfalso. apply H. now apply NoDup_app_intro.
+      + destruct (IH Hl Hb) as [[q' [H1 H2]]|(q1 & q2 & x & H1 & H2 & H3 & H4 & H5)].
+        * left. exists q'. auto.
+        * right. exists q1, q2, x. repeat split; auto.
+  Qed.
+
+  Theorem read_roots_spec st :
+    read_roots fs roots = Some st ->
+    (r_errs st <> [] <-> read_problem) /\
+    (r_errs st = [] ->
+       NoDup (map nname (r_nodes st)) /\
+       (forall n, In n (r_nodes st) <-> exists q, reached q /\ In n (fnodes q))) /\
+    (forall q, In q (r_seen st) <-> reached q).
+  Proof.
+    intros Hr. unfold read_roots in Hr. apply read_dirs_spec in Hr.
+    destruct Hr as [A0 [new (A1 & A2 & A3 & A4 & A5 & A6 & A7)]]. simpl in *.
+    rewrite app_nil_r in A1.
+    assert (Hseen : forall q, In q (r_seen st) <-> reached q).
+    { intros q. split.
+      - rewrite A1. intros Hq. destruct (A4 q Hq) as [s [Hs Hsq]].
+        exists s. split; [now apply sort_dedup_In|assumption].
+      - intros [s [Hs Hsq]]. apply clos_rt_rt1n in Hsq.
+        assert (Hin : In s (r_seen st)) by (apply A0; now apply sort_dedup_In).
+        clear Hs. induction Hsq as [x|x y z Hxy Hyz IH]; [assumption|].
+        apply IH. apply (A5 x y); [now rewrite <- A1|assumption]. }
+    assert (Hnames : map nname (flat_map fnodes (rev new)) = flat_map fnames (rev new)).
+    { apply map_flat_map. }
+    assert (Hndrev : NoDup (rev new)) by now apply NoDup_rev.
+    assert (Hinrev : forall q, In q (rev new) <-> reached q).
+    { intros q. rewrite <- in_rev, <- A1. apply Hseen. }
+    split; [|split; [|exact Hseen]].
+    - split.
+      + (* an error was reported: find what is wrong *)
+        intros Hne.
+        destruct (Forall_Exists_dec good_file good_file_sumbool (rev new)) as [Hall|Hex].
+        2:{ left. apply Exists_exists in Hex. destruct Hex as [q [Hq Hb]].
+            exists q. split; [now apply Hinrev|assumption]. }
+        rewrite Forall_forall in Hall.
+        destruct (in_dec string_dec "" (flat_map fnames (rev new))) as [He|He].
+        { right. left. apply in_flat_map in He. destruct He as [q [Hq Hx]].
+          exists q. split; [now apply Hinrev|assumption]. }
+        destruct (ListDec.NoDup_dec string_dec (flat_map fnames (rev new))) as [Hnd|Hnd].
+        { exfalso. apply Hne. apply A6. split; [reflexivity|]. split.
+          - intros q Hq. apply Hall. now apply in_rev in Hq.
+          - split; [|split].
+            + intros n Hn Hnm. apply He. rewrite <- Hnames, <- Hnm. now apply in_map.
+            + now rewrite Hnames.
+            + intros x _ []. }
+        right. right.
+        destruct (flat_map_dup fnames (rev new) Hndrev Hnd)
+          as [[q [H1 H2]]|(q1 & q2 & x & H1 & H2 & H3 & H4 & H5)].
+        * left. exists q. split; [now apply Hinrev|assumption].
+        * right. exists q1, q2, x. repeat split; auto; now apply Hinrev.
+      + (* something is wrong: an error is reported *)
+        intros Hp He. apply A6 in He. destruct He as (_ & Hg & (Hc1 & Hc2 & _)).
+        rewrite Hnames in Hc2. destruct (flat_map_nodup_inv fnames _ Hc2) as [I1 I2].
+        destruct Hp as [[q [Hq Hb]]|[[q [Hq Hb]]|[[q [Hq Hb]]|(q1 & q2 & x & H1 & H2 & H3 & H4 & H5)]]].
+        * apply Hb. apply Hg. rewrite A1 in Hseen. now apply Hseen.
+        * apply in_map_iff in Hb. destruct Hb as [n [Hn1 Hn2]]. apply (Hc1 n); [|assumption].
+          apply in_flat_map. exists q. split; [now apply Hinrev|assumption].
+        * apply Hb. apply I1. now apply Hinrev.
+        * apply (I2 Hndrev q1 q2 x); auto; now apply Hinrev.
+    - intros He. pose proof (proj1 A6 He) as (_ & Hg & (Hc1 & Hc2 & _)).
+      rewrite (A7 He). simpl. split; [assumption|].
+      intros n. rewrite in_flat_map. split.
+      + intros [q [Hq Hn]]. exists q. split; [now apply Hinrev|assumption].
+      + intros [q [Hq Hn]]. exists q. split; [now apply Hinrev|assumption].
+  Qed.
+End ReadSpec.
